@@ -314,16 +314,7 @@ func TestVerifC18(t *testing.T) {
 			fmt.Fprintln(os.Stderr, err)
 			os.Exit(2)
 		}
-		vs := c18Replay(cj)
-		if len(vs) == 0 {
-			fmt.Println("no violation on this tree")
-			os.Exit(0)
-		}
-		for _, v := range vs {
-			fmt.Printf("violation sig=%s: %s\n", v.Sig, v.Msg)
-		}
-		fmt.Printf("VIOLATION property=C18 replay=%s\n", p)
-		os.Exit(1)
+		os.Exit(ev.ReportReplay("C18", p, cj, c18Replay(cj)))
 	}
 	r := ev.NewRun("C18", "overlay cmd/thermal-writer TestVerifC18")
 	r.Rerun = func(cj []byte) []ev.Violation {
